@@ -21,7 +21,8 @@ Definition check_join (cases : list (list (list N) * list N)) : list nat :=
 Inductive call :=
 | LookupUpload (name : list N) (gz : bool)
 | LookupFile (name : list N)
-| InputLookup (f : list N)
+| LookupUploadV (name : list N) (gz overwrite existed : bool)
+| InputLookup (o : il_opts) (f : list N)
 | Dashboard (id : list N)
 | Scroll (id : list N)
 | SuffixFile (idx sid : list N)
@@ -37,7 +38,9 @@ Definition site_path (D H : list N) (c : call) : list N :=
   match c with
   | LookupUpload n gz => site_lookup_upload D n gz
   | LookupFile n => site_lookup_file D n
-  | InputLookup f => site_inputlookup D f
+  | LookupUploadV n gz ow ex => match lookup_upload_open D n gz ow ex with Some p => p | None => [] end
+  (* first call: the cursor is the client's start= option; a refused name opens nothing *)
+  | InputLookup o f => match inputlookup_open D o (il_start o) f with Some p => p | None => [] end
   | Dashboard id => site_dashboard D H id
   | Scroll id => site_scroll D H id
   | SuffixFile i s => site_suffix_file D H i s
@@ -58,9 +61,10 @@ Definition check_sites (D H : list N) (cases : list (call * (list N * bool))) : 
     let p := site_path D H (fst c) in
     bytes_eqb (clean p) (fst (snd c)) && Bool.eqb (negb (confined D p)) (snd (snd c))) cases O.
 
-(* validators: (inputlookup file name, was it accepted by isCSVFormat) *)
-Definition check_inputlookup_guard (cases : list (list N * bool)) : list nat :=
-  bad_indices (fun c => Bool.eqb (inputlookup_ok (fst c)) (snd c)) cases O.
+(* validators: (options, inputlookup file name, did the call get as far as opening a file) *)
+Definition is_some {A} (x : option A) : bool := match x with Some _ => true | None => false end.
+Definition check_inputlookup_guard (cases : list (il_opts * (list N * bool))) : list nat :=
+  bad_indices (fun c => Bool.eqb (is_some (inputlookup_open [] (fst c) (il_start (fst c)) (fst (snd c)))) (snd (snd c))) cases O.
 
 (* IsSafePathComponent: (name, was it accepted by the site's validator) *)
 Definition check_safe (cases : list (list N * bool)) : list nat :=
